@@ -27,6 +27,7 @@ DECLS = {
     "Dense": {"FOO": 0, "BAR": 1, "BAZ": 2},
     "Sparse": {"None_": 0, "Low": 3, "High": 252, "Wide": 64008},
     "Builtin": {"int": 1, "list": 2, "name_": 255},
+    "Unordered": {"Invalid": 250, "Low": 1, "Next": 2, "Top": 251},
 }
 EXTRA = (-1, 0, 1, 2, 3, 4, 200, 252, 253, 255, 256, 64008, 2**31, 2**64)
 
@@ -166,6 +167,15 @@ GEN_ENUMS = {
     "pub": [("WideThree", ("three", [("None", 0), ("Mid", 64009), ("Top", 16194276)]))],
     "map": [("WideInt", ("int", [("A", 1), ("B", 4097152080)])), ("Tiny", ("byte", [("Only", 255)]))],
 }
+# declaration ORDER is part of "all enum declarations": every order of the ordinals {0, 1, 2, 7} (consecutive runs after a
+# larger ordinal included), plus two protocol-like out-of-order declarations
+ORDER_ENUMS = [(f"Perm{i}", ("char", [(f"M{v}", v) for v in perm])) for i, perm in enumerate(itertools.permutations((0, 1, 2, 7)))]
+ORDER_ENUMS += [
+    ("Unordered", ("short", [("Invalid", 250), ("Low", 1), ("Next", 2), ("Other", 3), ("Top", 251)])),
+    ("WideUnordered", ("three", [("Small", 5), ("Big", 64007), ("Mid", 300), ("MidNext", 301)])),
+]
+GEN_ENUMS["pub"] = GEN_ENUMS["pub"] + ORDER_ENUMS
+ORDER_NAMES = {n for n, _ in ORDER_ENUMS}
 _gen_dir = None
 
 
@@ -261,7 +271,8 @@ def generated_menu():
     _, decls = _generated_setup()
     ops = []
     for cname, (_, members) in decls.items():
-        for n in sorted(set(members.values()) | {-1, 0, 5, 253, 2**31}):
+        extra = {-1, 0, 5, 253, 2**31} | ({v + 1 for v in members.values()} | {max(members.values()) + 2} if cname in ORDER_NAMES else set())
+        for n in sorted(set(members.values()) | extra):
             ops.append((cname, n))
     return ops
 
@@ -271,7 +282,12 @@ def _gen_shard(firsts):
     ops = generated_menu()
     count, bad = 0, []
     for first in firsts:
-        for rest in [()] + [(o,) for o in ops]:
+        # the declaration-order family is explored per class (its classes do not interact more than the others do)
+        if first[0] in ORDER_NAMES:
+            seconds = [o for o in ops if o[0] == first[0]]
+        else:
+            seconds = [o for o in ops if o[0] not in ORDER_NAMES]
+        for rest in [()] + [(o,) for o in seconds]:
             hist = [tuple(first)] + list(rest)
             count += 1
             w = run_generated_history(hist)
@@ -283,7 +299,8 @@ def _gen_shard(firsts):
 def menu():
     ops = []
     for cname, decl in DECLS.items():
-        for n in sorted(set(decl.values()) | set(EXTRA)):
+        extra = set(EXTRA) if cname != "Unordered" else {-1, 3, 252}  # the order family keeps the menu (and depth 4) affordable
+        for n in sorted(set(decl.values()) | extra):
             ops.append((cname, n))
     return ops
 
